@@ -621,6 +621,21 @@ func C13(c *core.Ctx) {
 				reqs = append(reqs, c13req{Kind: "jfind2", A: "w?where=" + url.QueryEscape(nm+cmp), Desc: "where on every kind of node"})
 			}
 		}
+		// operators cut short or doubled, on operands of every literal kind (the list is read afterwards)
+		for _, nm := range []string{"k", "un", "de", "u64", "bo", "en", "c/y", "ll"} {
+			for _, cmp := range []string{"!5", "!'a'", "! 5", "!", "!!=5", "=!5", "<>5", "=<5", "=>5", "==5", "<<5", ">", "<", "<=", "!=", "!=!", "!1.5", "!true"} {
+				reqs = append(reqs, c13req{Kind: "jfind2", A: "w?where=" + url.QueryEscape(nm+cmp), Desc: "where with a cut or doubled operator"})
+			}
+		}
+		// fc.range windows: signs, missing and surplus parts, on the target list, a nested list and a list that is not there
+		for _, sel := range []string{"w", "two", "c/in", "nosuch", "w/c/l", ""} {
+			for _, win := range []string{"-1-", "-1-1", "-5-", "-1", "--1", "1--1", "1-2-3", "-", "--", "1-", "0-0", "2-1", "+1-2", "1-+2", " 1-2", "1 -2", "1.5-2", "1-2.5", "a-b", "0x1-2", "99999999999999999999-1", "1-99999999999999999999", "-0-0", "١-٢"} {
+				for _, at := range []string{"", "two=p,1/"} {
+					tgt := strings.TrimSuffix(at, "/")
+					reqs = append(reqs, c13req{Kind: "jfind2", A: tgt + "?fc.range=" + url.QueryEscape(sel+"!"+win), Desc: "fc.range with a malformed or signed window"})
+				}
+			}
+		}
 		for _, key2 := range []string{"", "m", "b"} {
 			for _, p := range []string{"l", "l=a", "l=b", "l=", "l=zz", "l?where=v%3D5", "l=a/v"} {
 				reqs = append(reqs, c13req{Kind: "sfind", A: p, B: key2, Desc: fmt.Sprintf("struct-backed list whose second entry has the key %q", key2)})
